@@ -109,6 +109,18 @@ def Table.mk (name : Name) (schema : Schema) (cfgDefault : Name) (alias : Option
       let raw := escape tableName
       .ok (⟨Schema.mk? (some schemaName) cfgDefault, raw, escape (alias.getD raw)⟩, schema.isKnown)
 
+/-- `Table.__init__(name)` / `Table.__init__(name, schema)` after the repair of D17: an omitted schema is `None`, resolved to
+    `Schema()` when the constructor runs (so it is the default configured at CALL time), and — being falsy — never
+    triggers the "schema param is ignored" warning of a dotted name -/
+def Table.mkOpt (name : Name) (schema : Option Schema) (cfgDefault : Name) (alias : Option Name := none) :
+    Except NameErr (Table × Bool) :=
+  match schema with
+  | some s => Table.mk name s cfgDefault alias
+  | none =>
+    match Table.mk name (Schema.mk? none cfgDefault) cfgDefault alias with
+    | .ok (t, _) => .ok (t, false)
+    | .error e => .error e
+
 /-- `Table.__str__` -/
 def Table.str (t : Table) : Name := t.schema.str ++ '.' :: t.rawName
 
